@@ -54,10 +54,11 @@ struct CVec { size_t n; std::unique_ptr<double[]> p; explicit CVec(const std::ve
 struct Op { char kind; std::string name; int iv = 0; float fv = 0; std::string sv; };
 struct Prm {
     std::vector<Op> ops; std::string json;       // json: text of a file read before the setters are applied ("" = none)
+    std::vector<Op> pre_ops;                     // setters played BEFORE the file is read (history: set, read_json, set)
     void seti(const std::string &k, int v) { Op o; o.kind = 'i'; o.name = k; o.iv = v; ops.push_back(o); }
     void setf(const std::string &k, float v) { Op o; o.kind = 'f'; o.name = k; o.fv = v; ops.push_back(o); }
     void sets(const std::string &k, const std::string &v) { Op o; o.kind = 's'; o.name = k; o.sv = v; ops.push_back(o); }
-    std::string show() const { std::string s = json.empty() ? "" : "json:" + json + " "; for (auto &o : ops) { s += o.name + "="; if (o.kind == 'i') s += std::to_string(o.iv); else if (o.kind == 'f') { char b[40]; snprintf(b, sizeof b, "%.9gf", o.fv); s += b; } else s += "'" + o.sv + "'"; s += " "; } return s; }
+    std::string show() const { std::string s = json.empty() ? "" : "json:" + json + " "; if (!pre_ops.empty()) s += "[" + std::to_string(pre_ops.size()) + " setters before the file] "; for (auto &o : ops) { s += o.name + "="; if (o.kind == 'i') s += std::to_string(o.iv); else if (o.kind == 'f') { char b[40]; snprintf(b, sizeof b, "%.9gf", o.fv); s += b; } else s += "'" + o.sv + "'"; s += " "; } return s; }
 };
 static std::string tmp_json_path(long idx) { const char *d = getenv("VERIF_TMP"); std::string p = (d ? d : "/tmp"); return p + "/vf-c20-" + std::to_string((long)getpid()) + "-" + std::to_string(idx) + ".json"; }
 struct JsonFile { std::string path; JsonFile(const std::string &text, long idx) { if (text.empty()) return; path = tmp_json_path(idx); std::ofstream f(path); f << text; if (!f) { fprintf(stderr, "c20: cannot write %s\n", path.c_str()); exit(3); } }
@@ -65,12 +66,15 @@ struct JsonFile { std::string path; JsonFile(const std::string &text, long idx) 
 
 static amgclHandle c_params(const Prm &p, const std::string &jsonpath) {
     amgclHandle h = amgcl_params_create();
+    for (auto &o : p.pre_ops) { if (o.kind == 'i') amgcl_params_seti(h, o.name.c_str(), o.iv); else if (o.kind == 'f') amgcl_params_setf(h, o.name.c_str(), o.fv); else amgcl_params_sets(h, o.name.c_str(), o.sv.c_str()); }
     if (!jsonpath.empty()) amgcl_params_read_json(h, jsonpath.c_str());
     for (auto &o : p.ops) { if (o.kind == 'i') amgcl_params_seti(h, o.name.c_str(), o.iv); else if (o.kind == 'f') amgcl_params_setf(h, o.name.c_str(), o.fv); else amgcl_params_sets(h, o.name.c_str(), o.sv.c_str()); }
     return h;
 }
 static ptree cpp_params(const Prm &p, const std::string &jsonpath) {
-    ptree t; if (!jsonpath.empty()) boost::property_tree::read_json(jsonpath, t);
+    ptree t;
+    for (auto &o : p.pre_ops) { if (o.kind == 'i') t.put(o.name, o.iv); else if (o.kind == 'f') t.put(o.name, o.fv); else t.put(o.name, o.sv.c_str()); }
+    if (!jsonpath.empty()) boost::property_tree::read_json(jsonpath, t);   // the same call the C entry point documents: the file's tree becomes the parameter tree
     for (auto &o : p.ops) { if (o.kind == 'i') t.put(o.name, o.iv); else if (o.kind == 'f') t.put(o.name, o.fv); else t.put(o.name, o.sv.c_str()); }
     return t;
 }
@@ -124,16 +128,18 @@ struct JNode { std::map<std::string, JNode> kids; std::string leaf; bool is_leaf
 static void jput(JNode &root, const std::string &path, const std::string &text) { JNode *n = &root; size_t b = 0; while (true) { size_t d = path.find('.', b); std::string k = path.substr(b, d == std::string::npos ? d : d - b); n = &n->kids[k]; if (d == std::string::npos) break; b = d + 1; } n->is_leaf = true; n->leaf = text; }
 static std::string jdump(const JNode &n, int ind = 0) { if (n.is_leaf) return n.leaf; std::string s = "{\n"; size_t k = 0; for (auto &kv : n.kids) { s += std::string(ind + 2, ' ') + "\"" + kv.first + "\": " + jdump(kv.second, ind + 2) + (++k < n.kids.size() ? ",\n" : "\n"); } return s + std::string(ind, ' ') + "}"; }
 static void split_to_json(Prm &p, Rng &r) {
-    JNode root; std::vector<Op> keep; bool any = false;
+    JNode root; std::vector<Op> keep; bool any = false; bool with_pre = r.coin(0.4);
     for (auto &o : p.ops) {
         if (!r.coin(0.5)) { keep.push_back(o); continue; }
         any = true; char b[64];
+        // history "setter on a section, then read_json containing that section": the earlier value (a different one) must not survive
+        if (with_pre && r.coin(0.6)) { Op q = o; if (q.kind == 'i') q.iv = o.iv + 3; else if (q.kind == 'f') q.fv = o.fv * 0.5f; p.pre_ops.push_back(q); }
         if (o.kind == 'i') { snprintf(b, sizeof b, "%d", o.iv); jput(root, o.name, b); }
         else if (o.kind == 'f') { snprintf(b, sizeof b, "%.9g", o.fv); jput(root, o.name, b); }      // shortest text that identifies the float
         else if (o.sv == "true" || o.sv == "false") jput(root, o.name, o.sv);                       // JSON boolean
         else jput(root, o.name, "\"" + o.sv + "\"");
     }
-    if (!any) return;
+    if (!any) { p.pre_ops.clear(); return; }
     p.json = jdump(root); p.ops = keep;
     if (r.coin(0.3) && !keep.empty()) { Op o = keep[r.next() % keep.size()]; if (o.kind == 'i') { jput(root, o.name, std::to_string(o.iv + 7)); p.json = jdump(root); } }   // a setter overrides the file value
 }
